@@ -7,7 +7,7 @@ isomorphism and accepts every renumbering; the balance model answers true exactl
 counts and charge agree; `standardize` is idempotent and permutation-invariant given the stated
 hypotheses on the opaque canonical SMILES.
 
-Correspondence on the working tree (four streams, regressions first):
+Correspondence on the working tree (seven streams, regressions first):
  1. canonicaliser, back-ends wl and nauty: model `rxn.canon` (fed with the back-end's labelling)
     = implementation's canonical graphs; specification gates on the implementation's output:
     ITS(canon r) isomorphic to ITS(r) (Lean `match.iso`) and `smiles_check(..., "ITS")` true, equal
@@ -20,7 +20,16 @@ Correspondence on the working tree (four streams, regressions first):
     centre model = implementation's ITS / `get_rc` on the attributes the validator reads;
  3. balance verdict = model verdict on original / fragment-deleted / fragment-duplicated variants;
  4. `Standardize.fit`: fit∘fit = fit, invariance under atom order / fragment order / map numbers,
-    and fit = model (sort + `[HH]` rewrite over RDKit's per-fragment canonical SMILES).
+    and fit = model (sort + `[HH]` rewrite over RDKit's per-fragment canonical SMILES);
+ 5.-7. canonicaliser SESSIONS (one CanonRSMI instance answers a history of queries; the specification of every
+    answer is evaluated from (query, answer) alone, so it is independent of the history, as the pure Lean model
+    is): 5. fully mapped reactions - repeated queries, other outcomes of the same mapped reactant side,
+    renumbered copies, the instance's own output fed back; 6. partially mapped reactions - unmapped reagent
+    fragments on the reactant side, the same fragment twice, the same reagents over consecutive calls, leaving
+    groups without map numbers; 7. both with non-default options (wl_iterations, node_attrs permuted / fewer /
+    more keys).  Gates: ITS-equivalent to the query (validator + Lean `match.iso`), same unmapped sides, fixed
+    point, answer = a fresh instance's answer.  A failing case is a list of sessions that was re-run in a NEW
+    process before it is written (module-level state cannot be reproduced otherwise).
 """
 import json
 import logging
@@ -648,6 +657,390 @@ def standardize_case(ctx, src, rs, n_variants, fixed=None):
             return
 
 
+# ---------------------------------------------------------------- streams 5-7: canonicaliser sessions
+# One CanonRSMI instance answers a HISTORY of queries.  The specification side of every step is computed from
+# (input, output) alone, with fresh objects and pure functions, so it cannot depend on the history: the Lean model
+# `canonRxn` is a pure function, and every clause of the property is a statement about one (input, output) pair.
+#   5. "session": fully mapped reactions; the same query repeated, other outcomes of the same mapped reactant side
+#      (identity reaction, two product atoms of one element transposed, one product fragment not drawn), renumbered copies,
+#      the instance's own earlier output fed back, all interleaved over several reactions;
+#   6. "partial": partially mapped reactions (unmapped reagent fragments on the reactant side, the same fragment twice in one
+#      reaction, the same fragments across consecutive calls, leaving groups without map numbers);
+#   7. "config": the same with non-default options (wl_iterations, node_attrs permuted / fewer / more keys).
+# Gates per step: ITS(output) isomorphic to ITS(input) (validator + Lean match.iso; on partially mapped inputs after the
+# map numbers that occur on one side only are removed from both: they relate no atom to any other atom), equal unmapped
+# sides, fixed point, and output == output of a fresh instance (history independence; reported without input when the
+# specification still holds).
+# unmapped reagent fragments; the exact back-end's cost grows with the order of the automorphism group of the reactant graph
+# (two benzenes: 16 s, two BF4-: minutes), so the nauty sessions use LIGHT fragments (also twice) and at most one MEDIUM one
+LIGHT = ["[K+]", "[Na+]", "[Cl-]", "O", "CO", "CC(=O)O", "[OH-]", "[Pd]", "Cl", "N", "CC#N", "[Li+]", "[BH4-]", "[H+]", "[Cs+]"]
+MEDIUM = ["c1ccncc1", "ClCCl", "[O-]C([O-])=O", "C1CCOC1", "CN(C)C=O", "O=C=O", "CS(C)=O", "[H][H]", "OO"]
+HEAVY = ["CCN(CC)CC", "c1ccccc1", "F[B-](F)(F)F", "C[Si](C)(C)Cl"]
+REAGENTS = LIGHT + MEDIUM + HEAVY
+DEFAULT_ATTRS = ["element", "aromatic", "charge", "hcount"]
+SESSION_VIOLATION_CAP = 2
+
+
+def side_maps(rs):
+    mr, mp = side_mols(rs)
+    return ({a.GetAtomMapNum() for a in mr.GetAtoms()} - {0}, {a.GetAtomMapNum() for a in mp.GetAtoms()} - {0},
+            any(a.GetAtomMapNum() == 0 for a in mr.GetAtoms()), any(a.GetAtomMapNum() == 0 for a in mp.GetAtoms()))
+
+
+def shared_only(rs):
+    """The reaction with the map numbers that occur on one side only removed (atom order kept)."""
+    from rdkit import Chem
+
+    mr, mp = side_mols(rs)
+    a = {x.GetAtomMapNum() for x in mr.GetAtoms()} - {0}
+    b = {x.GetAtomMapNum() for x in mp.GetAtoms()} - {0}
+    for m in (mr, mp):
+        for x in m.GetAtoms():
+            if x.GetAtomMapNum() not in (a & b):
+                x.SetAtomMapNum(0)
+    return Chem.MolToSmiles(mr, canonical=False) + ">>" + Chem.MolToSmiles(mp, canonical=False)
+
+
+def unmap_leaving(rs):
+    """Reactant atoms whose map number does not occur among the products lose it (a legal, partially mapped spelling of
+    the same reaction); None when there is no such atom."""
+    from rdkit import Chem
+
+    mr, mp = side_mols(rs)
+    b = {x.GetAtomMapNum() for x in mp.GetAtoms()} - {0}
+    hit = False
+    for x in mr.GetAtoms():
+        if x.GetAtomMapNum() and x.GetAtomMapNum() not in b:
+            x.SetAtomMapNum(0)
+            hit = True
+    return Chem.MolToSmiles(mr, canonical=False) + ">>" + rs.split(">>")[1] if hit else None
+
+
+def add_reagents(rs, frags, rnd):
+    lhs, rhs = rs.split(">>")
+    fr = lhs.split(".")
+    for f in frags:
+        fr.insert(rnd.randrange(len(fr) + 1), f)
+    return ".".join(fr) + ">>" + rhs
+
+
+def other_outcome(rs, rnd):
+    """A different reaction with the SAME mapped reactant side (string-identical left of '>>')."""
+    lhs, rhs = rs.split(">>")
+    k = rnd.randrange(3)
+    if k == 0:
+        gh = parse_rxn(rs)
+        pm = sorted(gh[1].nodes)
+        a = rnd.choice(pm)
+        same = [x for x in pm if x != a and gh[1].nodes[x].get("element") == gh[1].nodes[a].get("element")]
+        if same:
+            return "transpose", transpose_product(rs, a, rnd.choice(same))
+    pf = rhs.split(".")
+    if k == 1 and len(pf) >= 2:
+        i = rnd.randrange(len(pf))
+        return "product_fragment_not_drawn", lhs + ">>" + ".".join(pf[:i] + pf[i + 1:])
+    return "identity", lhs + ">>" + lhs
+
+
+def make_canon(opts):
+    from synkit.Chem.Reaction.canon_rsmi import CanonRSMI
+
+    return CanonRSMI(**opts)
+
+
+def call_canon(cn, rs):
+    try:
+        out = cn.canonicalise(rs).canonical_rsmi
+        return "NONE" if out is None else out
+    except Exception as e:  # noqa: BLE001
+        return "EXC:" + type(e).__name__ + ":" + str(e)[:120]
+
+
+def is_broken(out):
+    return out.startswith("EXC:") or "None" in out or out == "NONE"
+
+
+def run_sessions(sessions, keep_graphs=True):
+    """Run a list of sessions ({"opts", "history"}) in this process, in order; every session on ONE instance.  A history
+    item is a reaction SMILES or {"feedback": j} (= the output of step j of the same session, skipped when that output is
+    broken).  All implementation calls of a step happen here, in a fixed order (session call, fresh-instance call, fixed-point
+    call on a fresh instance), so that a replay in a new process performs the same calls.  Returns per session the list of
+    evaluated steps."""
+    from synkit.Chem.Reaction.aam_validator import AAMValidator
+
+    result = []
+    for sess in sessions:
+        opts = sess["opts"]
+        cn = make_canon(opts)
+        steps, outs = [], []
+        for item in sess["history"]:
+            if isinstance(item, dict):
+                j = item["feedback"]
+                x = outs[j] if j < len(outs) and outs[j] is not None and not is_broken(outs[j]) else None
+                if x is None:
+                    outs.append(None)
+                    continue
+            else:
+                x = item
+            st = {"x": x, "feedback": isinstance(item, dict)}
+            st["out"] = out = call_canon(cn, x)
+            outs.append(out)
+            st["fresh"] = call_canon(make_canon(opts), x)
+            rmaps, pmaps, r_unmapped, p_unmapped = side_maps(x)
+            st["partial"] = r_unmapped
+            st["product_only"] = sorted(pmaps - rmaps)
+            st["problems"] = []
+            if is_broken(out):
+                st["problems"].append("no canonical reaction: " + out[:160])
+            else:
+                st["fp"] = call_canon(make_canon(opts), out)
+                try:
+                    ref_in, ref_out = (shared_only(x), shared_only(out)) if r_unmapped else (x, out)
+                    i_in, i_out = its_rc(ref_in), its_rc(ref_out)
+                except Exception as e:  # noqa: BLE001
+                    ref_in = ref_out = i_in = i_out = None
+                    st["problems"].append("canonical reaction does not parse: " + repr(e)[:120])
+                if i_in is None:
+                    st["no_reference_its"] = True  # no atom mapped on both sides: nothing to compare
+                elif i_out is None:
+                    st["problems"].append("canonical reaction does not parse")
+                else:
+                    if keep_graphs:
+                        st["its_in"], st["its_out"] = i_in[1], i_out[1]
+                    st["nontrivial"] = i_in[0][0].number_of_nodes() >= 3 and i_in[0][0].number_of_edges() >= 2
+                    if not AAMValidator.smiles_check(ref_out, ref_in, "ITS"):
+                        st["problems"].append("smiles_check(canonical, input, 'ITS') is False"
+                                              + (" (map numbers of one side only removed)" if r_unmapped else ""))
+                um_o, um_i = unmapped(out), unmapped(x)
+                if um_o != um_i:
+                    st["problems"].append(f"unmapped sides differ: {um_o} vs {um_i}")
+                if st["fp"] != out:
+                    st["problems"].append("not a fixed point: canonical form of the output is " + st["fp"][:200])
+            steps.append(st)
+        result.append(steps)
+    return result
+
+
+def _sub_main():
+    """Child process of `confirm_fresh`: stdin = one candidate (a JSON list of sessions); stdout = verdict of its last step."""
+    import sys
+
+    _quiet()
+    cand = json.loads(sys.stdin.read())
+    res = run_sessions(cand, keep_graphs=False)
+    last = res[-1][-1] if res and res[-1] else None
+    print(json.dumps({"problems": last["problems"] if last else None,
+                      "history_dependent": bool(last and last["out"] != last["fresh"]),
+                      "out": last["out"] if last else None}))
+
+
+def confirm_fresh(cands):
+    """Evaluate each candidate (a list of sessions) in its own NEW process; -> list of child verdicts (None on failure)."""
+    import subprocess
+    import sys
+    from concurrent.futures import ThreadPoolExecutor
+
+    def one(c):
+        try:
+            p = subprocess.run([sys.executable, "-c", "from harness.props import c09; c09._sub_main()"], cwd=str(ROOT),
+                               input=json.dumps(c), capture_output=True, text=True, timeout=600)
+            return json.loads(p.stdout.strip().splitlines()[-1])
+        except Exception:  # noqa: BLE001
+            return None
+
+    with ThreadPoolExecutor(8) as ex:
+        return list(ex.map(one, cands))
+
+
+def minimise_session(opts, resolved, i, earlier, want):
+    """Shortest list of sessions, tried in NEW processes, whose last step still shows `want` ('problems' or
+    'history_dependent'): the failing query alone, one earlier query + the failing query, the session prefix, all earlier
+    sessions of this run + the prefix."""
+    x = resolved[i]
+    cands = [[{"opts": opts, "history": [x]}]]
+    seen = set()
+    for j in range(i - 1, -1, -1):
+        if resolved[j] not in seen:
+            cands.append([{"opts": opts, "history": [resolved[j], x]}])
+            seen.add(resolved[j])
+        if len(cands) >= 7:
+            break
+    prefix = [{"opts": opts, "history": resolved[:i + 1]}]
+    if i >= 2:
+        cands.append(prefix)
+    for e in list(earlier)[:-7:-1]:  # state left behind by one of the last sessions
+        cands.append([e] + prefix)
+    if earlier:
+        cands.append(list(earlier) + prefix)
+    for c, v in zip(cands, confirm_fresh(cands)):
+        if v is not None and v.get(want):
+            return c, True
+    return prefix, False
+
+
+def session_case(ctx, kind, src, sessions, earlier=(), minimise=True):
+    """Sessions run in order in this process (generation: one session; replay: the recorded list): implementation calls
+    first, then one batch of Lean isomorphism queries, then the verdicts for every step."""
+    all_steps = run_sessions(sessions)
+    reqs, where = [], {}
+    for s, steps in enumerate(all_steps):
+        for i, st in enumerate(steps):
+            if "its_in" in st:
+                where[(s, i)] = len(reqs)
+                reqs.append(iso_req(st["its_out"], st["its_in"]))
+    replies = yield reqs
+    reported = 0
+    for s, steps in enumerate(all_steps):
+        opts = sessions[s]["opts"]
+        resolved = [st["x"] for st in steps]
+        ctx.count(f"{kind}:sessions")
+        for i, st in enumerate(steps):
+            x, out = st["x"], st["out"]
+            ctx.count(f"{kind}:steps")
+            ctx.count(f"{kind}:{opts['backend']}:steps")
+            if st["partial"]:
+                ctx.count(f"{kind}:steps_partially_mapped")
+                if len(set(x.split(">>")[0].split("."))) < len(x.split(">>")[0].split(".")):
+                    ctx.count(f"{kind}:steps_same_fragment_twice")
+            if st["feedback"]:
+                ctx.count(f"{kind}:steps_own_output_fed_back")
+            if x in resolved[:i]:
+                ctx.count(f"{kind}:steps_repeated_query")
+            elif x.split(">>")[0] in [y.split(">>")[0] for y in resolved[:i]]:
+                ctx.count(f"{kind}:steps_same_reactant_side_as_earlier_query")
+            if st.get("no_reference_its"):
+                ctx.count(f"{kind}:steps_without_shared_atoms")
+            ctx.case(["session", kind, opts, resolved[:i + 1]], nontrivial=bool(st.get("nontrivial")),
+                     sample={"stream": kind, "opts": opts, "step": i, "rsmi": x, "canonical": out}
+                     if len(x) < 140 and i > 0 else None)
+            problems = list(st["problems"])
+            if (s, i) in where and not replies[where[(s, i)]] and not any(p.startswith("smiles_check") for p in problems):
+                problems.append("ITS(canonical) is not isomorphic to ITS(input) (Lean match.iso)")
+            hist_dep = out != st["fresh"]
+            if not problems and not hist_dep:
+                continue
+            if reported >= 1 or sum(1 for v in ctx.violations if isinstance(v["case"], dict) and v["case"].get("kind") == kind
+                                    and str(v["case"].get("source", "")).startswith("regress") == src.startswith("regress")
+                                    ) >= SESSION_VIOLATION_CAP:
+                ctx.count(f"{kind}:violations_not_reported_separately")
+                continue
+            reported += 1
+            classes = [CLASS_PROD_ONLY] if st["product_only"] else []
+            confirmed = None
+            if minimise:
+                out_sessions, confirmed = minimise_session(opts, resolved, i, list(earlier) + list(sessions[:s]),
+                                                           "problems" if problems else "history_dependent")
+            else:
+                out_sessions = list(sessions[:s]) + [{"opts": opts, "history": resolved[:i + 1]}]
+            case = {"stream": "session", "kind": kind, "source": src, "sessions": out_sessions}
+            detail = {"failing_query": x, "canonical": out, "canonical_from_fresh_instance": st["fresh"],
+                      "problems": problems, "step": i, "session_so_far": resolved[:i + 1],
+                      "reproduced_in_new_process": confirmed}
+            if problems:
+                ctx.violation("canonical reaction returned by a reused canonicaliser is not equivalent to its input / not a "
+                              "fixed point: " + problems[0][:200], case, detail, classes)
+            else:
+                ctx.violation("canonical reaction depends on the queries answered before (output differs from a fresh "
+                              "instance's) although it meets the specification", case, detail, classes, no_input=True)
+
+
+def gen_session(rnd, pool, n_react, n_steps):
+    """Fully mapped reactions; tokens per reaction: itself twice, two other outcomes of the same reactant side, a renumbered
+    copy, its own canonical output fed back; shuffled over the reactions of the session (first occurrence first)."""
+    toks = []
+    for src, r in rnd.sample(pool, n_react):
+        r0 = renumber(r, rnd) if rnd.random() < 0.5 else r
+        toks += [("same", r0), ("same", r0), ("other", r0), ("other", r0), ("renumber", r0), ("feedback", r0)]
+    rnd.shuffle(toks)
+    hist, first = [], {}
+    for kind, r0 in toks[:n_steps]:
+        if r0 not in first:
+            first[r0] = len(hist)
+            hist.append(r0)
+        elif kind == "same":
+            hist.append(r0)
+        elif kind == "other":
+            hist.append(other_outcome(r0, rnd)[1])
+        elif kind == "renumber":
+            hist.append(renumber(r0, rnd, canonical=rnd.random() < 0.5))
+        else:
+            hist.append({"feedback": first[r0]})
+    return hist
+
+
+def gen_partial(rnd, pool, n_steps, backend, light_only=False):
+    """Partially mapped reactions of one 'laboratory session': a small reagent shelf (2-3 fragments) is added, unmapped, to the
+    reactant side of consecutive reactions; with probability 0.4 one fragment occurs twice; some reactions additionally
+    lose the map numbers of their leaving groups; some queries are repeated."""
+    if backend == "nauty":
+        shelf = rnd.sample(LIGHT, rnd.choice([1, 2])) + rnd.sample(LIGHT if light_only else MEDIUM, 1)
+        twice = [f for f in shelf if f in LIGHT]
+    else:
+        shelf = rnd.sample(REAGENTS, rnd.choice([2, 3]))
+        twice = shelf
+    hist = []
+    while len(hist) < n_steps:
+        src, r = rnd.choice(pool)
+        if rnd.random() < 0.3:
+            r = unmap_leaving(r) or r
+        frags = rnd.sample(shelf, rnd.randrange(1, len(shelf) + 1))
+        if rnd.random() < 0.4:
+            again = [f for f in frags if f in twice]
+            frags.append(rnd.choice(again) if again else rnd.choice(twice))
+        x = add_reagents(r, frags, rnd)
+        hist.append(x)
+        if rnd.random() < 0.2 and len(hist) < n_steps:
+            hist.append(x)
+    return hist
+
+
+def gen_opts(rnd):
+    """Non-default options.  The atom map itself is never a key (it is what is being canonicalised), and wl needs >= 1 round."""
+    o = {"backend": rnd.choice(BACKENDS)}
+    na = list(DEFAULT_ATTRS)
+    m = rnd.randrange(5)
+    if m == 0:
+        rnd.shuffle(na)
+    elif m == 1:
+        na = rnd.sample(na, rnd.randrange(1, 4))
+    elif m == 2:
+        na = na + ["neighbors"]
+    elif m == 3:
+        na = []
+    if m == 4 or o["backend"] == "wl":
+        o["wl_iterations"] = rnd.choice([1, 2, 4, 5, 6])
+    o["node_attrs"] = na
+    return o
+
+
+def session_pool_ok(rs):
+    """Fully mapped on both sides as written, and every product atom has a reactant partner (the others are F23)."""
+    rmaps, pmaps, r_unmapped, p_unmapped = side_maps(rs)
+    return not r_unmapped and not p_unmapped and not (pmaps - rmaps)
+
+
+def session_streams(ctx, pool):
+    """-> list of (kind, opts, history) in a fixed order."""
+    q = ctx.quick
+    rnd = ctx.rnd
+    pools = {"wl": pool, "nauty": [(s, r) for s, r in pool if n_atoms(r) <= 35]}
+    plan = []
+    for backend in BACKENDS:
+        for k in range(9 if q else 40):
+            plan.append(("session", {"backend": backend}, gen_session(rnd, pools[backend], 3, 9 if q else 18)))
+    for backend in BACKENDS:
+        for k in range(8 if q else 40):
+            plan.append(("partial", {"backend": backend}, gen_partial(rnd, pools[backend], 6 if q else 8, backend)))
+    for k in range(24 if q else 120):
+        o = gen_opts(rnd)
+        # fewer keys = more automorphisms = exponential cost of the exact back-end: small reactions there
+        coarse = o["backend"] == "nauty" and not set(DEFAULT_ATTRS) <= set(o["node_attrs"])
+        pl = [(s, r) for s, r in pool if n_atoms(r) <= 20] if coarse else pools[o["backend"]]
+        plan.append(("config", o, gen_session(rnd, pl, 1, 3) if k % 2 == 0
+                     else gen_partial(rnd, pl, 3, o["backend"], light_only=coarse)))
+    return plan
+
+
 # ---------------------------------------------------------------- driver
 def load_regress():
     d = ROOT / "regress" / "C09"
@@ -677,6 +1070,8 @@ def run_one(ctx, c, n_variants=3):
     elif s == "standardize":
         fixed = {"variant": c["variant"], "remove_aam": c.get("remove_aam", True)} if "variant" in c else None
         run_batch(ctx, [standardize_case(ctx, c.get("source", "regress"), c["rsmi"], 4, fixed)])
+    elif s == "session":
+        run_batch(ctx, [session_case(ctx, c.get("kind", "session"), c.get("source", "regress"), c["sessions"], minimise=False)])
 
 
 def n_atoms(rs):
@@ -700,14 +1095,28 @@ def run(ctx):
         "(element, aromatic, charge, hcount; order), decided by the Lean engine (DESIGN 5a)",
         "'same unmapped reactants and products' is compared on constitution (canonical non-isomeric SMILES with "
         "hydrogens folded): the graph pipeline carries no stereo labels",
+        "partially mapped reactions: unmapped atoms occur on the reactant side only (CanonRSMI numbers those; unmapped product "
+        "atoms are dropped by its graph conversion - reported, not gated: outside the property's quantifier); the canonical "
+        "reaction numbers every reactant atom, so 'isomorphic ITS' is decided after removing, from query and answer alike, the "
+        "map numbers that occur on one side only (they relate no atom to another); the unmapped-sides clause covers the rest",
+        "non-default options never put 'atom_map' among node_attrs (it is the quantity being canonicalised; with it the wl "
+        "back-end is not a fixed point) and use wl_iterations >= 1 (NetworkX rejects 0)",
     ]
     ctx.gen_rule = (
         "regression inputs first; population = vendored mapped reactions (ecoli 274, USPTO test set 100) plus hand-written small "
         "reactions (corpus/c09_reactions.txt), sampled by ctx.rnd; variants per reaction: random permutations of the map numbers "
         "(atom order kept / canonical), RDKit random re-rooting seeded from ctx.rnd, fragment shuffles, FixAAM shift, transposition of "
-        "two centre atoms (or two product atoms of one element) on the product side, fragment deletion / duplication, reversal.")
+        "two centre atoms (or two product atoms of one element) on the product side, fragment deletion / duplication, reversal. "
+        "Sessions (streams 5-7, generated after the others): per back-end 9/40 histories of 9/18 queries over 3 fully mapped reactions "
+        "(query repeated, other outcome of the same reactant side: identity / product atoms transposed / product fragment not drawn, "
+        "renumbered copy, own output fed back; shuffled); per back-end 8/40 histories of 6/8 partially mapped queries (reaction + 1-3 "
+        "unmapped fragments of a per-session shelf drawn from 28 reagents, with probability 0.4 one fragment twice, 0.3 leaving groups "
+        "unmapped, 0.2 query repeated); 24/120 histories of 3 queries with random options (wl_iterations in 1,2,4,5,6; node_attrs "
+        "permuted / 1-3 of the 4 keys / + neighbors / none). The exact back-end gets reactions of <=35 atoms and light reagents "
+        "(its cost is exponential in the symmetry of the reactant graph).")
     ctx.nontrivial_rule = ("distinct (stream, back-end/method, reaction, variant); canon: >=3 reactant atoms and >=2 bonds; validator: "
-                           "centre with >=2 atoms; balance: >=2 atoms on the left; standardize: >=2 fragments")
+                           "centre with >=2 atoms; balance: >=2 atoms on the left; standardize: >=2 fragments; sessions: distinct "
+                           "(options, history up to the step), >=3 reactant atoms mapped on both sides' ITS and >=2 bonds")
     build_and_audit(ctx, ["SynKitProofs.Props.C09"], "SynKitProofs/Audit/C09.lean", THEOREMS)
 
     for c in load_regress():
@@ -743,6 +1152,16 @@ def run(ctx):
     lap("balance")
     run_batch(ctx, [standardize_case(ctx, s, r, 3 if q else 6) for s, r in synthetic + pick(real, 120 if q else 10 ** 6)])
     lap("standardize")
+    # sessions last: the streams above keep their cases for a given seed, and state left behind by a session cannot leak
+    # into them
+    pool = [(s, r) for s, r in synthetic + small if session_pool_ok(r)]
+    ctx.count("session_pool", len(pool))
+    plan = session_streams(ctx, pool)
+    for kind in ("session", "partial", "config"):
+        idx = [k for k, p in enumerate(plan) if p[0] == kind]
+        run_batch(ctx, [session_case(ctx, kind, f"{kind}:{k}", [{"opts": plan[k][1], "history": plan[k][2]}],
+                                     earlier=[{"opts": o, "history": h} for _, o, h in plan[:k]]) for k in idx])
+        lap(kind)
     ctx.extra["stream_wall_s"] = walls
 
     known = load_known(ctx.pid)
@@ -757,6 +1176,10 @@ def run(ctx):
                    stream_ok("validator"))
     ctx.obligation("correspondence: balance verdict impl == model", stream_ok("balance"))
     ctx.obligation("correspondence: Standardize.fit == model; idempotent; invariant under rewritings", stream_ok("standardize"))
+    ctx.obligation("reused canonicaliser (repeated queries, other outcomes of the same reactants, renumbered copies, own output "
+                   "fed back; partially mapped reactions with recurring unmapped reagents; non-default options): every answer "
+                   "is ITS-equivalent to its query, has the same unmapped sides, is a fixed point and equals a fresh "
+                   "instance's answer", stream_ok("session"))
 
 
 def replay(ctx, case):
